@@ -1369,11 +1369,14 @@ asn1c_lang_C_type_SIMPLE_TYPE(arg_t *arg) {
 		DEBUG("expr constraint checking code for %s", p);
 		if(asn1c_emit_constraint_checking_code(arg) == 1) {
 			/*
-			 * No checkable constraint: defer to the base type's checker.
+			 * No checkable constraint: defer to the base type's checker,
+			 * taken from the base type's descriptor: a referenced type
+			 * without constraints of its own has no <Type>_constraint().
 			 * (td->encoding_constraints.general_constraints is this very
 			 * function and would recurse forever.)
 			 */
-			OUT("return %s_constraint(td, sptr, ctfailcb, app_key);\n",
+			OUT("return asn_DEF_%s.encoding_constraints.general_constraints"
+				"(td, sptr, ctfailcb, app_key);\n",
 				asn1c_type_name(arg, expr, TNF_SAFE));
 		}
 		INDENT(-1);
